@@ -1,7 +1,10 @@
 #!/bin/bash
 # run.sh <property id> [quick|thorough] -- (re)builds the overlay venv if missing, then runs the check
+# against /repo's working tree.  (Only tools/wt_run.sh sets VERIF_REPO/VERIF_OUT, to evaluate a seeded
+# change in a scratch worktree without touching /repo or /verif/evidence.)
 cd "$(dirname "$0")"
 ./setup.sh >/dev/null 2>&1 || { echo "HARNESS-ERROR setup failed"; exit 3; }
 export VERIF_TIER="${2:-${VERIF_TIER:-quick}}"
 export PYTHONDONTWRITEBYTECODE=1
+if [ -n "$VERIF_REPO" ]; then export PYTHONPATH="$VERIF_REPO"; fi
 exec .venv/bin/python -m checks.run "$1"
